@@ -150,6 +150,11 @@ func oneBurst(c C09Case, rep int) (sig, msg string, nt bool) {
 	if c.Kind == "different-subs" || c.Kind == "mixed" {
 		nSubs = 3
 	}
+	if c.Kind == "releases-across-subs" {
+		// one subscriber per request: releases of some subscribers' sessions in flight together with
+		// partial-record updates of others (global, not per-subscriber, state is what they share)
+		nSubs = c.N
+	}
 	credited := map[string]int64{}
 	usage := map[string]int64{}
 	lsn := int32(1000 * (rep + 1))
@@ -189,6 +194,15 @@ func oneBurst(c C09Case, rep int) (sig, msg string, nt bool) {
 			if code != 200 {
 				return "valid-request-rejected/update", fmt.Sprintf("prefix update answered %d", code), false
 			}
+			if c.Kind == "releases-across-subs" {
+				// a partial record is opened before the burst
+				lsn++
+				code, _, _ := doHTTP("POST", prefix+"/chargingdata/"+s.ref+"/update", mkUpdateBody(supi, s.id, 1, c.Req, c.Used, lsn, "VOLUME_LIMIT"), nil)
+				if code != 200 {
+					return "valid-request-rejected/update", fmt.Sprintf("prefix update answered %d", code), false
+				}
+				usage[supi] += int64(c.Used)
+			}
 		}
 	}
 	// the burst
@@ -221,6 +235,9 @@ func oneBurst(c C09Case, rep int) (sig, msg string, nt bool) {
 				if i%3 == 2 {
 					k = "update"
 				}
+			}
+			if c.Kind == "releases-across-subs" && i%2 == 0 {
+				k = "release"
 			}
 			if c.Kind == "mixed" || c.Kind == "same-sub" {
 				switch i % 5 {
@@ -428,7 +445,7 @@ func judgeC09(c C09Case) *h.Verdict {
 	return v
 }
 
-var allKinds = []string{"same-sub", "same-new-supi", "different-subs", "mixed", "same-session-releases", "prefix-supi-creates"}
+var allKinds = []string{"same-sub", "same-new-supi", "different-subs", "mixed", "same-session-releases", "prefix-supi-creates", "releases-across-subs"}
 
 func genC09(t *rapid.T) C09Case {
 	// every case runs every workload kind ("all"); a single kind can be named in a replay file
